@@ -33,7 +33,7 @@ func c09Gen(r *rand.Rand, tier string) []spec.Case {
 	// random histories of length 2-4 (the stale-knock step of grpcmux only in its dedicated single-step cases above)
 	n := 12
 	if tier == "thorough" {
-		n = 400
+		n = 1500
 	}
 	for i := 0; i < n; i++ {
 		k := pick(r, []string{"mux", "mux", "grpc", "grpcmux"})
